@@ -120,7 +120,7 @@ def plan(tier, seed):
     else:
         runs.append(dict(seeds=seeds, operands=ops, small=ops[:2], acts=ACTS, lvl=2, dim=8, ebound=400,
                          invariants=("Emit", "ShapeConsistent", "SpecInv")))
-        runs.append(dict(seeds=seeds, operands=ops, small=ops[:2], acts=ACTS, lvl=3, dim=8, ebound=400, simulate=200,
+        runs.append(dict(seeds=seeds, operands=ops, small=ops[:2], acts=ACTS, lvl=3, dim=8, ebound=400, simulate=40,
                          invariants=("Emit", "ShapeConsistent", "SpecInv")))
     return runs
 
